@@ -548,10 +548,41 @@ func (e *escaper) escapeList(c context, n *parse.ListNode) context {
 	if n == nil {
 		return c
 	}
+	coalesceTextNodes(n)
 	for _, m := range n.Nodes {
 		c = e.escape(c, m)
 	}
 	return c
+}
+
+// coalesceTextNodes replaces runs of adjacent text nodes of n by one text node each. Text
+// nodes are adjacent where the template has a comment, e.g. `<!-- c --{{/* */}}>` or
+// `</title{{/**/}}>`; their bytes are adjacent in the output, so delimiters such as "-->" or
+// an end tag must not be overlooked because they are spread over two nodes.
+func coalesceTextNodes(n *parse.ListNode) {
+	adjacent := false
+	for i := 1; i < len(n.Nodes); i++ {
+		if n.Nodes[i-1].Type() == parse.NodeText && n.Nodes[i].Type() == parse.NodeText {
+			adjacent = true
+			break
+		}
+	}
+	if !adjacent {
+		return
+	}
+	nodes := make([]parse.Node, 0, len(n.Nodes))
+	for _, m := range n.Nodes {
+		if t, ok := m.(*parse.TextNode); ok && len(nodes) > 0 {
+			if prev, ok := nodes[len(nodes)-1].(*parse.TextNode); ok {
+				merged := *prev
+				merged.Text = append(append(make([]byte, 0, len(prev.Text)+len(t.Text)), prev.Text...), t.Text...)
+				nodes[len(nodes)-1] = &merged
+				continue
+			}
+		}
+		nodes = append(nodes, m)
+	}
+	n.Nodes = nodes
 }
 
 // escapeListConditionally escapes a list node but only preserves edits and
